@@ -29,6 +29,7 @@ import GdVerif.Run.GenGs3
 import GdVerif.Run.Gs3Faults
 import GdVerif.Run.GenJc2m
 import GdVerif.Run.Small
+import GdVerif.Run.FfowFaults
 /-
   gdmodel: the model behind a line protocol.
     gdmodel run        : reads `<id> <entry> <args…>` lines on stdin, prints `<id> <outcome>`
@@ -60,6 +61,7 @@ def allEntries : List (String × (List String → String)) := List.flatten [
   gs3FaultEntries,
   jc2mEntries,
   smallEntries,
+  ffowFaultEntries,
   gs1Entries,
   gs2Entries,
   gs2FaultEntries
